@@ -1,0 +1,13 @@
+//go:build verif
+
+package streams
+
+import (
+	streamtypes "lunar/engine/streams/types"
+)
+
+// VerifProcessor exposes a processor instance of the engine (created by flow `flowName`
+// under key `processorKey`) to the verification harness.
+func (s *Stream) VerifProcessor(flowName, processorKey string) (streamtypes.ProcessorI, bool) {
+	return s.processorsManager.GetProcessorInstance(flowName, processorKey)
+}
